@@ -348,6 +348,19 @@ def gen_c14(seed, tier):
     desc["ops"][-1]["cfg"]["max_errors"] = 0
     desc["ops"][-1]["cfg"]["retry"] = None
     desc["ops"][-1]["cfg"]["transform"] = rng.choice([None, None, "extra-call", "wrap-output", "both"])
+    if seed % 7 == 3:
+        # file-backed stores, some with a staging file left behind by a writer that was killed: a dry run leaves the
+        # directory exactly as it found it
+        from checks.cuts import file_backed
+
+        derived = ref.derived_stores(desc["world"])
+        fnames = [n["store"] for n in desc["world"]["nodes"] if n.get("store") and n["kind"] == "call"
+                  and n["store"] not in derived and not desc["world"]["stores"][n["store"]].get("feeds")]
+        for nm in fnames:
+            desc["world"]["stores"][nm]["flavour"] = "plain"
+        if fnames:
+            file_backed(desc, fnames, rng)
+            desc["orphan_staging"] = [nm for nm in fnames if rng.random() < 0.6]
     names = sorted(desc["world"]["stores"])
     r = rng.random()
     if rng.random() < 0.25:
@@ -400,10 +413,17 @@ def _activity(rec):
 
 
 def exec_c14(prop, desc):
+    hist = machine.History(desc)
+    try:
+        return _exec_c14(prop, desc, hist)
+    finally:
+        hist.cleanup()
+
+
+def _exec_c14(prop, desc, hist):
     import uberjob
     from model.core import canon, typed_equal
 
-    hist = machine.History(desc)
     world = hist.world
     hist.init_sources()
     tapes = desc.get("tapes") or {}
@@ -412,6 +432,9 @@ def exec_c14(prop, desc):
     for idx, op in enumerate(desc["ops"][:-1]):
         machine.apply_op(hist, op, idx, tape=tapes.get(str(idx)))
     op = desc["ops"][-1]
+    for nm in desc.get("orphan_staging") or ():
+        with open(str(hist.disk.path(nm)) + ".STAGING", "wb") as f:
+            f.write(b"partial data of a writer that was killed")
     st0 = _state(hist)
     # (1) the dry run
     dop = copy.deepcopy(op)
@@ -453,6 +476,9 @@ def exec_c14(prop, desc):
         viol.append(O.V("dry-run-touched", f"dry run executed or accessed: {[e[3:6] for e in touched[:4]]}"))
     elif hist.disk.snapshot()[0] != st0[0][0]:
         viol.append(O.V("dry-run-touched", "store contents changed during a dry run"))
+    elif len(st0[0]) > 3 and hist.disk.snapshot()[3] != st0[0][3]:
+        viol.append(O.V("dry-run-touched", f"the stores' directory changed during a dry run: {sorted(st0[0][3])} -> "
+                                           f"{sorted(hist.disk.snapshot()[3])}"))
     elif rec_d.exc is None:
         if not (isinstance(rec_d.result, tuple) and len(rec_d.result) == 2):
             viol.append(O.V("dry-run-result", f"dry run returned {type(rec_d.result).__name__}, not (plan, node)"))
